@@ -250,6 +250,10 @@ impl Clone for TransitionCycle {
         // the old schedule is consistent (C15, C10, C09), no real vehicle is listed twice, every listed real
         // vehicle is an old and / or a new vehicle with an admissible new tour, magnitudes: see upd_pre
         self.upd_pre(old(transitions)@, *old(maintenance_violation) as int, changed_vehicles@, vehicles@, tours@),
+        // (clause of upd_pre, repeated: the caller-side assumption the transition slice names) no real vehicle
+        // is listed twice: update_vehicle / remove_vehicle read the previous tour of the vehicle from self.tours
+        forall|i: int, j: int| 0 <= i < j < changed_vehicles@.len() && changed_vehicles@[i] is Vehicle
+            ==> #[trigger] changed_vehicles@[i] != #[trigger] changed_vehicles@[j],
     ensures
         forall|vt: VehicleTypeIdx| old(transitions)@.contains_key(vt) <==> #[trigger] final(transitions)@.contains_key(vt),
         // C15 / C10: every transition is consistent with the NEW tours ...
